@@ -49,6 +49,9 @@ def gen_case(rnd, tier: str, i: Any) -> Dict[str, Any]:
         "no_round": tier == "thorough" and rnd.random() < 0.05,
         "mem_prof": rnd.random() < 0.5,
         "parser": rnd.choice(drv.PARSER_VARIANTS),
+        # how the Trace object is told about its files: directory scan, rank -> absolute path, rank -> name relative to
+        # trace_dir, or a plain list of paths (ranks inferred from the files' metadata)
+        "ctor": rnd.choice(["dir", "dir", "dict_abs", "dict_rel", "list"]),
     }
     return case
 
@@ -105,7 +108,14 @@ def _check(case, cfg, files_raw, paths, d, res, ctx) -> None:  # noqa: ANN001
                   "first_events": next(iter(files_raw.values()))["traceEvents"][:3]}
 
     with core.env(HTA_DISABLE_NS_ROUNDING="1" if cfg["no_round"] else None):
-        t = drv.new_trace(d, paths if "sample_dir" in case else None, parser=cfg.get("parser"))
+        ctor = cfg.get("ctor", "dir")
+        import os as _os
+        how = paths if "sample_dir" in case else {"dir": None, "dict_abs": dict(paths), "dict_rel": {r: _os.path.basename(q) for r, q in paths.items()},
+                                                  "list": sorted(paths.values(), reverse=True)}[ctor]
+        res.counters[f"ctor_{ctor}"] += 1
+        ok0, t = drv.guard(res, f"Trace({ctor})", drv.new_trace, d, how, parser=cfg.get("parser"))
+        if not ok0:
+            return
         if cfg["mode"] == "parse":
             ok, _ = drv.guard(res, "parse_traces", t.parse_traces, use_multiprocessing=cfg["mp"], use_memory_profiling=cfg["mem_prof"])
         else:
